@@ -11,8 +11,8 @@
 
   <groups>  `~` = no records; else `;`-separated template records, each `-` (no fields) or a
             `,`-separated list of IE tokens `ent:id:ty:len:hexname`
-  <ies>     `-` or `,`-separated IE tokens; <records> `-` = none, else `;`-separated records of
-            `,`-separated value tokens (n<dec> | t | f | x<hex>), one per IE
+  <ies>     `-` or `,`-separated IE tokens; <records> `-` = none, else `;`-separated records, each
+            `.` (no values) or `,`-separated value tokens (n<dec> | t | f | x<hex>), one per IE
   <count>, <format>   `-` = parameter absent, `h<hex>` = the raw parameter value (`h` = empty)
 
   The model lines (`store ...`) run Ipfix.Store.step; the `chk` lines run Ipfix.C20.verdict with
@@ -43,14 +43,24 @@ def parseParam (tok : String) : Option (Option String) :=
     | 'h' :: r => if r.isEmpty then some (some "") else (stringOfHex (String.ofList r)).map some
     | _ => none
 
-/-- `Driver.parseIE` reads the name bytes as Latin-1; element names are UTF-8 here -/
-def utf8Name (ie : IE) : IE :=
-  { ie with name := utf8OrLatin1 (ie.name.toList.map fun c => UInt8.ofNat c.toNat) }
+/-- IE token `ent:id:ty:len:hexname` (as `Driver.parseIE`, but the name bytes are UTF-8 here) -/
+def parseIEu (tok : String) : Option IE :=
+  match tok.splitOn ":" with
+  | [ent, id, ty, len, name] => do
+    let nm ← fromHex name
+    pure { name := utf8OrLatin1 nm, id := ← id.toNat?, ty := DataType.ofCode (← ty.toNat?), ent := ← ent.toNat?, len := ← len.toNat? }
+  | _ => none
 
-def parseIEsU (tok : String) : Option (List IE) := (parseIEs tok).map (·.map utf8Name)
+def parseIEsU (tok : String) : Option (List IE) :=
+  if tok == "-" then some [] else (tok.splitOn ",").mapM parseIEu
 
 def parseGroups (tok : String) : Option (List (List IE)) :=
   if tok == "~" then some [] else (tok.splitOn ";").mapM parseIEsU
+
+/-- `-` = no records; records separated by `;`; a record without values is `.` -/
+def parseRecs (tok : String) : Option (List (List Value)) :=
+  if tok == "-" then some []
+  else (tok.splitOn ";").mapM fun r => if r == "." then some [] else (r.splitOn ",").mapM parseValue
 
 def zipRecord (ies : List IE) (vs : List Value) : Option (List (IE × Value)) :=
   if ies.length = vs.length then some (ies.zip vs) else none
@@ -64,7 +74,7 @@ def parseOp (a : List String) : Option Op :=
                  records := gs.map fun g => g.map fun ie => (ie, Value.num 0) })
   | ["add", "data", ver, dom, seq, len, time, _id, ies, recs] => do
     let ies ← parseIEsU ies
-    let rs ← parseRecords recs
+    let rs ← parseRecs recs
     let recs ← rs.mapM (zipRecord ies)
     pure (.add { version := ← ver.toNat?, length := ← len.toNat?, exportTime := ← time.toNat?, seq := ← seq.toNat?,
                  domain := ← dom.toNat?, isTemplate := false, records := recs })
@@ -90,6 +100,10 @@ def parseObs (op : Op) (o : List String) : Obs :=
     | some st, some b => .resp st b
     | _, _ => .other
   | _, _ => .other
+
+/-- observation lines are ASCII: element names in a verdict may be anything (incl. U+2028) -/
+def asciiOnly (s : String) : String :=
+  s.map fun c => if c == ' ' || (33 ≤ c.toNat && c.toNat ≤ 126) then c else '?'
 
 structure State where
   store : Store
@@ -117,7 +131,7 @@ def dispatch (st : State) (line : String) : State × String :=
           let o := parseObs op obsToks
           let v := match C20.verdict st.tracker op o with
             | none => "holds"
-            | some why => "fails " ++ why
+            | some why => "fails " ++ asciiOnly why
           ({ st with tracker := C20.next st.tracker op o }, v)
         | none => (st, "bad-op")
       | _ => (st, "na")
